@@ -681,6 +681,10 @@ func GetRunningEventFilter(r db.KeyValueReader) (*RunningEventFilter, error) {
 	return &filter, nil
 }
 
+func DeleteRunningEventFilter(w db.KeyValueWriter) error {
+	return w.Delete(db.RunningEventFilter.Key())
+}
+
 func WriteRunningEventFilter(w db.KeyValueWriter, filter *RunningEventFilter) error {
 	enc, err := encoder.Marshal(filter)
 	if err != nil {
